@@ -265,6 +265,12 @@ theorem tie_pyNormalizeLines : pyNormalizeLines =
      "if streamoffset == current_span[1]:",
      "if not stream[streamfile]:"] := rfl
 
+/-- `loadManifest`: the stream cursor (`pos`, `segIdx`) and `anyFileTokens` are declared, and `segments`
+is reset, *inside* the per-stream loop (gofmt indentation of exactly two tabs is part of the
+pattern): Model `fsLine` starts every line from `⟨dirname, [], false, 0, 0⟩`. -/
+theorem tie_loadManifestCursorDecls : loadManifestCursorDecls =
+    ["var anyFileTokens bool", "var pos int64", "var segIdx int", "segments = segments[:0]"] := rfl
+
 /-! Model-side readings of the tied literals (so that the model constants are pinned too). -/
 
 theorem tie_model_pkgEscapePred (c : UInt8) : ArvVerif.C10.pkgEscapePred c = (decide (c ≤ 32) || c == 92) := rfl
